@@ -114,7 +114,9 @@ P = histprop.HistProp(
     assumptions=["custom filesystems whose exists() fails are outside the built-in stackings the theorem C12_exists_total covers"])
 generate, corpus, known = P.generate, P.corpus, P.known
 ASSUMPTIONS, BUILDS = P.ASSUMPTIONS, P.BUILDS
-RULE = P.RULE + ("; the ASYNC port: the directed cases on the configurations available there run through the async API "
+RULE = P.RULE + ("; create_dir / create_dir_all on names occupied by a dangling symbolic link and by a link loop on PhysicalFS, "
+                 "through an altroot and as an overlay's write layer (oracle on the implementation: file-exists / directory-exists)"
+                 "; the ASYNC port: the directed cases on the configurations available there run through the async API "
                  "(tokio current-thread runtime) and every failing call's kind and path is compared with the async model")
 
 
@@ -152,8 +154,46 @@ def async_errors(cases):
     return out, n
 
 
+def occupied_by_links():
+    """create_dir on a name that is taken by something metadata() cannot resolve - a dangling symbolic link, a link
+    loop - directly, through altroots and as an overlay's write layer: the target is occupied, the class is
+    file-exists / directory-exists.  Judged on the implementation alone (symbolic links are outside the model)."""
+    import random
+    rng = random.Random(12)
+    cases = []
+    for kind in ("phys", "alt_phys", "ovl_pp"):
+        c = vfx.Case("c12_links_%s" % kind)
+        g = hist.build_config(c, kind, rng)
+        c.cfg = g
+        t = g.target
+        sub = g.alt_under[1] if g.alt_under else ""
+        for n, target in (("dangling", "/nonexistent/target"), ("loop", "loop")):
+            c.op("xsymlink", 0, vfx.hexs((sub[1:] + "/" if sub else "") + n), vfx.hexs(target))
+        c.want = []
+        for n in ("dangling", "loop"):
+            c.want.append(c.op("createdir", vfx.ps(t, n)))
+            c.want.append(c.op("createdirall", vfx.ps(t, n + "/below")))
+        cases.append(c)
+    _m, ilines = vfx.run_both("".join(c.text() for c in cases), "c12l")
+    out = []
+    for c in cases:
+        for step in c.want:
+            line = ilines.get(("r", c.name, step)) or ""
+            kinds = [k for k, _p in ERR.findall(line)]
+            if kinds[:1] not in (["FileExists"], ["DirExists"]):
+                out.append({"case": c.name, "case_text": c.text(), "step": step, "op": c.ops[step], "kind": "r", "model": None,
+                            "impl": line, "violates": True,
+                            "note": "create_dir on a name occupied by a dangling / looping symbolic link is classified %s, "
+                                    "not file-exists / directory-exists" % (kinds[:1] or line[:40])})
+                break
+    return out, sum(len(c.want) for c in cases)
+
+
 def run_and_compare(cases, tier):
     res = P.run_and_compare(cases, tier)
+    ldis, ln = occupied_by_links()
+    res["disagreements"] = res["disagreements"] + ldis
+    res["stats"].setdefault("distribution", {})["link_occupied_targets_checked"] = ln
     dis, n = async_errors(cases)
     res["disagreements"] = res["disagreements"] + dis
     res["stats"].setdefault("distribution", {})["async_error_lines_compared"] = n
